@@ -336,3 +336,33 @@ PROPS["C15"] = {
                     "int64 overflow of the running total is not modelled (needs indexed spaces of 2^63 bytes); keeper not running, wallet unlocked, no concurrent configuration (the code's guards, not exercised)",
                     "passphrase/payout-address validation of the API handlers is fixed to valid inputs"],
 }
+
+PROPS["C08"] = {
+    "props": ["MassVerif.Props.C08"], "drivers_mod": ["MassVerif.Driver.Miner"],
+    "harnesses": [{"name": "miner", "pkg": "harness/miner", "driver": "MassVerif/Driver/Miner.lean",
+                   "quick": {"n": 160}, "thorough": {"n": 1200}, "search": {"n": 600}, "replayable": False, "timeout": 600}],
+    "level_text": "Unbounded proof (Lean 4) over a model of one round of the v1 miner: the proof search as a transition system over ticker "
+                  "ticks (carrying the clock's slot), better/lesser chain tips and a stop, for arbitrary label sequences, candidates, "
+                  "qualities and targets. Proved: a proof found for slot s is an offered, error-free, bound candidate, all offered bound "
+                  "proofs verify, its quality exceeds the target of s and is the best of s (first maximum), no offered bound proof exceeded "
+                  "the target at any slot from the template's first slot up to s (earliest slot), s was at most allowAhead (=1, regenerated "
+                  "fact) slots ahead of the clock at the finding tick; after a better tip or a stop the search never returns a proof "
+                  "(abandonment); if an eligible proof wins some first slot and nothing interferes, exactly that best proof is returned as "
+                  "soon as a tick comes within the look-ahead (completeness); a block is handed to the chain only by a round whose height "
+                  "was not mined, only by a poll that saw the clock after the block's timestamp, and not after a stop or a moved tip during "
+                  "the wait (after the fix of F23/F24); heights of accepted blocks over any template sequence are pairwise distinct. "
+                  "Correspondence: the real PoCMiner (solveBlock + submitBlock through hook H7) against a scripted chain/keeper with REAL "
+                  "bit-length-24 proofs (re-verified with VerifiedQuality on every run), real-time scenarios started on a slot boundary; "
+                  "the timing-independent outcome is diffed with the Lean model, time-dependent clauses are checked as inequalities "
+                  "against the clock; the header's signature is verified with pocec under the winner's key.",
+    "level_note": "Partial in one respect: the miner reads the wall clock; the model abstracts it to the slot carried by each tick, and the "
+                  "harness places scripted events with >= 1 s margins (scheduling jitter beyond that would show as a correspondence "
+                  "difference, not be masked). Trusted: Lean kernel; mass-core's VerifiedQuality / GetTarget / PassBinding / difficulty (parameters); "
+                  "pocec signatures. An offered bound proof that does not verify aborts the round (no block) - the keeper never offers one "
+                  "(massdb GetProof re-verifies). The v2 miner (engine.v2) is not covered.",
+    "trusted_base": ["mass-core poc.DefaultProof.VerifiedQuality, PoCTemplate.GetTarget/PassBinding/GetCoinbase, wire header hashing, pocec signatures: parameters / library",
+                     "wall clock and ticker: abstracted to the slot value each tick observes; the real-time harness checks look-ahead and not-before-timestamp against time.Now()",
+                     "go/harness/miner/proofs.json: precomputed real proofs (cmd/mkproofs), input data re-verified by the library on every run"],
+    "assumptions": ["hand-written model Model/Miner.lean of strategy.go/miner.go; agreement checked by the correspondence stream on every run",
+                    "one round at a time (generateBlocks is a single goroutine); chain acceptance is scripted"],
+}
